@@ -128,8 +128,11 @@ func vFirstWriteCase(tr common.TransportProtocol, n int) {
 	first := vQueuedAt(s, 0)
 	ss, isSS := first.metadata.(*sessionStruct)
 	vAssert(cnt >= 1 && isSS && ss.Protocol() == openSessionRequest && ss.seq == 0 && ss.sessionID == 7, "the first segment is the open-session request with sequence number 0")
-	probe := vNondetInt("probe")
-	vAssume(probe >= 0 && probe < n)
+	probe := 0
+	if n > 0 {
+		probe = vNondetInt("probe")
+		vAssume(probe >= 0 && probe < n)
+	}
 	if n <= MaxSessionOpenPayload {
 		vAssert(cnt == 1 && int(ss.payloadLen) == n && len(first.payload) == n, "a first write of at most 1024 bytes rides on the open-session request")
 		if n > 0 {
@@ -143,7 +146,7 @@ func vFirstWriteCase(tr common.TransportProtocol, n int) {
 		d := vQueuedAt(s, 1)
 		das, isD := d.metadata.(*dataAckStruct)
 		vAssert(isD && das.seq == 1 && len(d.payload) == n && int(das.payloadLen) == n, "it follows as one data segment with the next sequence number")
-		vAssert(d.payload[probe] == b[probe], "data bytes are the caller's bytes")
+		vAssert(n == 0 || d.payload[probe] == b[probe], "data bytes are the caller's bytes")
 	}
 	vAssert(s.openSessionRequestSent.Load(), "the request is marked as sent (never created twice)")
 }
